@@ -208,10 +208,67 @@ def gen_graph(rnd, nedges, feat=None, wf_reads=True):
             for a in range(rnd.randrange(1, 3)):
                 pe = Edge(1000 + idx * 10 + a); pe.phony = True; pe.outs = ['al%d_%d' % (idx, a)]; pe.exp = [rnd.choice(e.outs)]
                 g.edges.append(pe); avail.append(pe.out0); avail.append(pe.out0)
+    if rnd.random() < f['dyndep']: add_dyndep(rnd, g)
     if rnd.random() < 0.3:
         outs = [e.out0 for e in g.edges]
         g.defaults = rnd.sample(outs, rnd.randrange(1, min(3, len(outs)) + 1))
     return g
+
+def dd_text(info):
+    L = ['ninja_dyndep_version = 1']
+    for out0, (io, ii, rs) in info.items():
+        l = 'build ' + out0
+        if io: l += ' | ' + ' '.join(io)
+        l += ': dyndep'
+        if ii: l += ' | ' + ' '.join(ii)
+        L.append(l)
+        if rs: L.append('  restat = 1')
+    return '\n'.join(L) + '\n'
+
+def add_dyndep(rnd, g, produced=None):
+    """bind 1-3 statements to a dyndep file (a source, or produced by a new statement placed first)"""
+    cands = [e for e in g.edges if not e.phony and e.idx < 900]
+    if not cands: return
+    k = len(g.dd_info)
+    dd = 'dd%d' % k
+    bound = rnd.sample(cands, min(len(cands), rnd.randrange(1, 4)))
+    first = min(g.edges.index(e) for e in bound)
+    before = list(g.sources) + [o for e in g.edges[:first] for o in e.outs]
+    info = {}
+    for e in bound:
+        pos = g.edges.index(e)
+        earlier = list(g.sources) + [o for pe in g.edges[:pos] for o in pe.outs]
+        ii = [x for x in rnd.sample(earlier, min(len(earlier), rnd.randrange(0, 3))) if x not in e.manifest_ins() and x != dd]
+        io = ['ddo%d_%d' % (k, e.idx)] if rnd.random() < 0.4 else []
+        info[e.out0] = (io, ii, rnd.random() < 0.3)
+        e.dyndep = dd
+        if rnd.random() < 0.5: e.oo.append(dd)
+        else: e.imp.append(dd)
+        e.hidden = e.hidden + [x for x in ii if x not in e.hidden]
+    g.dd_info[dd] = info
+    if produced is None: produced = rnd.random() < 0.6
+    if produced:
+        pe = Edge(900 + k); pe.outs = [dd]
+        pe.exp = rnd.sample(before, min(len(before), rnd.randrange(1, 3)))
+        pe.restat = rnd.random() < 0.3
+        g.edges.insert(first, pe)
+        g.ddtext[dd] = dd_text(info)
+    else:
+        g.sources[dd] = dd_text(info)
+
+def inline_dyndep(g):
+    """the same graph with the dyndep information written into the manifest"""
+    import copy
+    g2 = copy.deepcopy(g)
+    for e in g2.edges:
+        if e.dyndep and e.dyndep in g2.dd_info and e.out0 in g2.dd_info[e.dyndep]:
+            io, ii, rs = g2.dd_info[e.dyndep][e.out0]
+            e.imp = e.imp + [x for x in ii if x not in e.manifest_ins()]
+            e.outs = e.outs + io; e.n_imp_out += len(io)
+            e.restat = e.restat or rs
+            e.dyndep = None
+    g2.dd_info = {}
+    return g2
 
 def scenario_header(sid, g, sources=None):
     L = ['scenario %s' % sid]
